@@ -308,6 +308,19 @@ def _check(desc):
                         fails.append(('supplementary units', [0], g))
                 if not want_sup and loads and not stripped:
                     fails.append(('stream_loader calls', [], loads))
+    if t in ('altlink', 'debug_sup', 'debuglink', 'debuglink_altlink', 'debuglink_debugsup') and desc['loader']:
+        # the answer for one follow_links value must not depend on an earlier call with the other value on the SAME file object:
+        # second call with the flag flipped vs the first call of a fresh object
+        def summary(dw):
+            if isinstance(dw, Raised):
+                return dw
+            return (guarded(lambda: dw.has_debug_info), dw.supplementary_dwarfinfo is not None, core.digest(repr(guarded(full_dump, dw))))
+        second = summary(guarded(lambda: elf.get_dwarf_info(follow_links=not follow)))
+        fresh_elf = ELFFile(io.BytesIO(data), stream_loader=loader)
+        fresh = summary(guarded(lambda: fresh_elf.get_dwarf_info(follow_links=not follow)))
+        if second != fresh:
+            fails.append(('get_dwarf_info(follow_links=%s) after get_dwarf_info(follow_links=%s) on the same ELFFile' % (not follow, follow),
+                          'as on a fresh ELFFile: (has_debug_info, supplementary loaded, dump digest) = %r' % (fresh,), second))
     return fails, True, (t, core.digest(outc if isinstance(outc, str) else repr(outc))), data
 
 
